@@ -53,6 +53,8 @@ def is_value_error(exc):
 # SANE (C03a) and BOOK (C10a) on every returned container / well
 
 def check_container_value(c, where):
+    if id(c) in M.kf03_objects:
+        return
     cf = R.cfg()
     q = cf.q
     M.count('SANE')
@@ -348,6 +350,10 @@ def addressed(slicer):
     """Index list [(i, j)] addressed by a PlateSlicer, from the *reference* addressing model applied
     to the original selector; falls back to identity with plate.wells for sub-sliced slicers."""
     plate = slicer.plate
+    ov = M.addr_override.get(id(slicer))
+    if ov is not None and ov[2] is slicer:
+        M.count('addr.subslice_by_numpy_grid')
+        return list(ov[0]), tuple(ov[1])
     if not hasattr(slicer, 'items'):
         try:
             idx, shape = R.ref_address(list(plate.row_names), list(plate.column_names), slicer.item)
